@@ -79,6 +79,7 @@ func (sc *hScenario) junk(i int) []byte {
 
 type hFinding struct {
 	Kind   string // buffer-after-enc, object-after-enc, decode-accept, decode-consumed, decode-value, receiver-changed, bytes-changed, panic, enc-error
+	Role2  string // "checksum" when, independently of where the bytes first differ, the appended trailer does not cover the appended bytes
 	Role   string // for buffer-after-enc: length | checksum | prior | other ; for object-after-enc: field role
 	Where  string
 	Detail string
@@ -244,7 +245,33 @@ func step(sc *hScenario, st *hState, op hOp) *hFinding {
 					}
 				}
 			}
-			return &hFinding{Kind: "buffer-after-enc", Role: role, Where: pathOf(where + ":"), Detail: fmt.Sprintf("%d bytes unread before; appended %s, the same message into an empty buffer gives %s (first difference at +%d %s)", len(before), hx(app), hx(ref), i, where)}
+			f := &hFinding{Kind: "buffer-after-enc", Role: role, Where: pathOf(where + ":"), Detail: fmt.Sprintf("%d bytes unread before; appended %s, the same message into an empty buffer gives %s (first difference at +%d %s)", len(before), hx(app), hx(ref), i, where)}
+			// alignment-independent reading of C05: whatever was appended IS this frame, and its trailer must be the
+			// algorithm over all appended bytes before the trailer (only consulted when the bytes already differ)
+			if role == "other" {
+				mt := st.mvals[op.Arg].Type
+				for _, sg := range segs {
+					fi := mt.FieldIndex(strings.TrimPrefix(sg.Path, "."))
+					if sg.Role != "checksum" || sg.Off+sg.Len != len(ref) || fi < 0 || mt.Fields[fi].Alg == "" || len(app) < sg.Len {
+						continue
+					}
+					want := rm.Checksum(mt.Fields[fi].Alg, app[:len(app)-sg.Len])
+					var have uint64
+					tr := app[len(app)-sg.Len:]
+					for k := 0; k < sg.Len; k++ {
+						sh := uint(8 * k)
+						if !sg.Little {
+							sh = uint(8 * (sg.Len - 1 - k))
+						}
+						have |= uint64(tr[k]) << sh
+					}
+					if have != want&(1<<(8*uint(sg.Len))-1) {
+						f.Role2 = "checksum"
+						f.Detail += fmt.Sprintf("; the trailer %x is not %s over the %d bytes appended before it (%#x)", tr, mt.Fields[fi].Alg, len(app)-sg.Len, want)
+					}
+				}
+			}
+			return f
 		}
 	case opDEC, opDECINTO:
 		want, wcons, werr, hostile := rm.DecodeRefX(sc.T, st.unread)
@@ -451,7 +478,7 @@ var histRelevant = map[string]func(f *hFinding) bool{
 		return (f.Kind == "buffer-after-enc" || f.Kind == "object-after-op") && f.Role == "length"
 	},
 	"C05": func(f *hFinding) bool {
-		return (f.Kind == "buffer-after-enc" || f.Kind == "object-after-op") && f.Role == "checksum"
+		return (f.Kind == "buffer-after-enc" || f.Kind == "object-after-op") && (f.Role == "checksum" || f.Role2 == "checksum")
 	},
 	"C06": func(f *hFinding) bool {
 		return f.Kind == "buffer-after-enc" || f.Kind == "buffer-changed" || f.Kind == "enc-error" || f.Kind == "panic"
